@@ -154,6 +154,10 @@ func headersFor(m int) map[string]interface{} {
 		return map[string]interface{}{"alg": "HS256"}
 	case 22:
 		return map[string]interface{}{"alg": "ES256", "kid": "k", "typ": "JWT"}
+	case 30: // a case variant of an allowed name is another member
+		return map[string]interface{}{"alg": "ES256", "kid": "k", "Kid": "someone-else"}
+	case 31:
+		return map[string]interface{}{"alg": "ES256", "ALG": "none"}
 	}
 	return map[string]interface{}{"alg": "ES256", "kid": "k"}
 }
@@ -192,7 +196,7 @@ func signedTail(m int, reveal *string, suffix *string, signedData *string, k *jw
 	return true
 }
 
-var signedMutations = []int{20, 21, 22, 23, 24, 25, 26, 27, 28, 29}
+var signedMutations = []int{20, 21, 22, 23, 24, 25, 26, 27, 28, 29, 30, 31}
 
 // Harness_C07_Update: update requests; also the (from, until) pair handed to the time validator (C09).
 func Harness_C07_Update() {
@@ -224,7 +228,7 @@ func Harness_C07_Update() {
 		want = false
 	}
 	u.Request.SignedData = resign(m, u.Request.SignedData, k, u.Signed)
-	if m == 21 || m == 22 {
+	if m == 21 || m == 22 || m == 30 || m == 31 {
 		want = false
 	}
 	want = signedTail(m, &u.Request.RevealValue, &u.Request.DidSuffix, &u.Request.SignedData, k.JWK, len(p.MultihashAlgorithms) == 2) && want
@@ -284,7 +288,7 @@ func Harness_C07_Recover() {
 		want = false
 	}
 	r.Request.SignedData = resign(m, r.Request.SignedData, k, r.Signed)
-	if m == 21 || m == 22 {
+	if m == 21 || m == 22 || m == 30 || m == 31 {
 		want = false
 	}
 	want = signedTail(m, &r.Request.RevealValue, &r.Request.DidSuffix, &r.Request.SignedData, k.JWK, len(p.MultihashAlgorithms) == 2) && want
@@ -332,7 +336,7 @@ func Harness_C07_Deactivate() {
 	d := gen.NewDeactivate(signedSuffix, code, k, from, until)
 	d.Request.DidSuffix = suffix
 	d.Request.SignedData = resign(m, d.Request.SignedData, k, d.Signed)
-	if m == 21 || m == 22 {
+	if m == 21 || m == 22 || m == 30 || m == 31 {
 		want = false
 	}
 	want = signedTail(m, &d.Request.RevealValue, &d.Request.DidSuffix, &d.Request.SignedData, k.JWK, false) && want
